@@ -23,6 +23,9 @@ func init() {
 		rule: histRule + " Oracle A: attribute model (precision sticky unless 0, documented default otherwise; mode sticky except Copy/SetMantExp/MantExp/GobDecode-into-zero-precision). Oracle B: complete memory image (struct + mantissa up to capacity) of every variable except the receiver, and of every package-level variable, compared at every statement boundary of the running operation.", assume: common}
 	props["C10"] = &propCfg{level: "exploration", quick: tierCfg{runs: 30000, budget: 50 * time.Second}, thorough: tierCfg{runs: 20000000, budget: 12 * time.Minute},
 		rule: histRule + " Oracle: shadow execution - every step is repeated on fresh memory (deep copies of the operands taken before the live call, completely de-aliased, a zero receiver carrying only precision and mode, a clean pool) and must agree with the live, aliased, history-laden, pool-faulted call on value, sign, precision, mode, accuracy, return values and panic.", assume: common}
+	props["C19"] = &propCfg{level: "exploration", quick: tierCfg{runs: 40000, budget: 50 * time.Second}, thorough: tierCfg{runs: 20000000, budget: 12 * time.Minute},
+		rule:   "one scenario per seed: a context.Context (drawn precision/mode) and 3-6 variables; history of 3-25 calls from {Add Sub Mul Quo FMA Sqrt Neg Abs Set Err SetPrec SetMode New*} with receivers distinct from operands and pre-loaded with arbitrary precision/mode/value; NaN faults through special-valued operands and NewFloat64(NaN); foreign panics (error value, string, runtime.Error) injected at a drawn yield inside a context call (positions from a fault-free dry run); pool faults and lowered knobs. Oracle: executable latch model (prec, mode, pending error) + bare operation on a fresh receiver carrying the context's attributes. Non-trivial = at least one operation executed; distinct = distinct scenario digest.",
+		assume: append([]string{"correct rounding of the bare decimal operation is assumed (C01-C05 are not claimed): the model checks that the Context layer adds exactly 'apply the context's attributes, latch ErrNaN'"}, common...)}
 	props["C04"] = &propCfg{level: "exploration", quick: tierCfg{runs: 30000, budget: 50 * time.Second}, thorough: tierCfg{runs: 20000000, budget: 12 * time.Minute},
 		rule: histRule + " Oracle: operand-class model (invalid <=> ErrNaN panic; receiver valid afterwards; results fixed by the operand classes; XOR sign of products/quotients; sign of exactly-zero sums); any other panic value on valid arguments is a violation. The first three seeds of every run are the exhaustive operand-class sweep (6^2 x 4 ops, 6^3 FMA, 6 Sqrt, x 6 modes, 3 magnitude variants) - plain enumeration, fault-free.", assume: common}
 }
